@@ -175,7 +175,22 @@ func (st *c07state) scope() map[*ssa.Function]bool {
 		}
 	}
 	for _, n := range c07Entries {
+		if strings.Contains(n, "$") {
+			add(c.P.FuncOpt(n)) // closures are optional entries (a refactoring may turn them into methods, which are reached through their callers)
+			continue
+		}
 		add(c.fn(n))
+	}
+	// whatever the handler fields can hold is reachable from network input too
+	for _, f := range []string{"handlePing", "handlePong", "handleClose"} {
+		for _, v := range c.P.FieldStores(c.P.Field("Conn", f)) {
+			switch fv := v.(type) {
+			case *ssa.MakeClosure:
+				add(fv.Fn.(*ssa.Function))
+			case *ssa.Function:
+				add(fv)
+			}
+		}
 	}
 	return out
 }
